@@ -1272,3 +1272,53 @@ func Unload(v ssa.Value) []ssa.Value {
 	}
 	return out
 }
+
+// SliceAny reports whether pred holds for any value on the deep backward slice
+// of v (every intermediate value is tested, not only the roots).
+func SliceAny(v ssa.Value, pred func(ssa.Value) bool) bool {
+	seen := map[ssa.Value]bool{}
+	var walk func(v ssa.Value) bool
+	walk = func(v ssa.Value) bool {
+		if v == nil || seen[v] {
+			return false
+		}
+		seen[v] = true
+		if pred(v) {
+			return true
+		}
+		switch x := v.(type) {
+		case *ssa.ChangeType:
+			return walk(x.X)
+		case *ssa.Convert:
+			return walk(x.X)
+		case *ssa.MakeInterface:
+			return walk(x.X)
+		case *ssa.ChangeInterface:
+			return walk(x.X)
+		case *ssa.Phi:
+			for _, e := range x.Edges {
+				if walk(e) {
+					return true
+				}
+			}
+		case *ssa.BinOp:
+			return walk(x.X) || walk(x.Y)
+		case *ssa.UnOp:
+			if x.Op == token.MUL {
+				for _, u := range Unload(x) {
+					if u != v && walk(u) {
+						return true
+					}
+				}
+				return false
+			}
+			return walk(x.X)
+		case *ssa.Slice:
+			return walk(x.X)
+		case *ssa.Extract:
+			return walk(x.Tuple)
+		}
+		return false
+	}
+	return walk(v)
+}
